@@ -14,7 +14,7 @@ PROPS = {
              'single-octet mutations of their encodings, every truncation of a rich OPEN, data lengths 0..64 and 4074..4076, a <20% random stream; '
              'distinct = distinct (function, input) pairs; non-trivial = the model took a branch other than the first length check',
     ),
-    'C08': dict(title='Receive-side header validation and stream framing', l0=True, live=True, lean=['CoreBGP.Props.C08', 'CoreBGP.Props.PathTieC08'],
+    'C08': dict(title='Receive-side header validation and stream framing', l0=True, live=True, lean=['CoreBGP.Props.C08', 'CoreBGP.Props.PathTieC08', 'CoreBGP.Props.DecTieC08'],
         trivial=[r'^read/m0\.other$'], rule='L0 differential on the reader goroutine over in-memory connections with varying segmentations: header length values (quick: protocol-relevant sample + 400 random; thorough: all 65536) x types, all 256 types x boundary lengths, every marker position, every truncation; NOTIFICATION encodings; non-trivial = reader got past the first short read'),
     'C14': dict(title='The OPEN corebgp sends reflects configuration and plugin capabilities', l0=True, live=True, lean=['CoreBGP.Props.C14'],
         rule='L0 differential on newOpenMessage+encode: AS grid incl. 65535/65536/2^32-1, hold times, capability lists 0..40 with codes 0..255 incl. 65, value lengths 0..300, sweeps across every 255-byte length-octet boundary'),
